@@ -159,6 +159,9 @@ def endtoend(chk):
         # the only condition sits on a call BELOW the outermost one
         ("g > f(i{P}) > x", "g > f(i) > x", "i"),
         ("g(a) > f(x{P}) > y", "g(a) > f(x) > y", "x"),
+        # the constrained variable is captured under another name
+        ("f(i as step{P}) > x", "f(i as step) > x", "step"),
+        ("g(a as first{P}) > f(i as step) > y", "g(a as first) > f(i as step) > y", "first"),
     ]
     n_events = 0
     for (ptxt, pfn) in preds:
@@ -198,6 +201,21 @@ def endtoend(chk):
                 chk.violation("oracle", "override on %r not applied exactly under the condition" % csel,
                               {"selector": csel, "args": [n, k, c], "got": list(ys), "want": want_y})
             chk.count(("ov", csel, n, k, c))
+            # two conditional overrides of the same variable: one that declines (its condition fails) leaves what
+            # the other decided; when both hold the most recently activated wins
+            csel2 = "f(i%s) > x" % ptxt2
+            with ptera.probing(csel, env=env, overridable=True) as prb:
+                prb.override(lambda d: 1000)
+                with ptera.probing(csel2, env=env, overridable=True) as prb2:
+                    prb2.override(lambda d: 2000)
+                    with ptera.probing("f(i) > y", env=env).values() as ys:
+                        mod.f(n, k, c)
+            want_y = [{"i": i, "y": (2000 if pfn2(i) else 1000 if pfn(i) else i * k + c) - i} for i in range(n)]
+            if list(ys) != want_y:
+                chk.violation("oracle", "overrides on %r and (activated later) %r: not applied exactly under their "
+                              "conditions" % (csel, csel2),
+                              {"selector": csel, "second": csel2, "args": [n, k, c], "got": list(ys), "want": want_y})
+            chk.count(("ov2", csel, csel2, n, k, c), nontrivial=any(pfn(i) != pfn2(i) for i in range(n)))
     chk.cov["oracle"]["e2e_selectors"] = len(preds)
     chk.cov["oracle"]["e2e_events_seen"] = n_events
     chk.sample({"e2e_selector": shapes[0][0].replace("{P}", preds[0][0])})
